@@ -64,4 +64,15 @@ JudgeLaw ==
   /\ Recs[i].kind = "law"
   /\ \E v \in {VerdictLaw(Recs[i])} : ok' = (v = "") /\ why' = v
 Next == why = "init" /\ i' = i /\ (JudgeResample \/ JudgeLaw)
+
+(* The same verdicts computed in the initial states (one state per record), for core.validate_records /  *)
+(* core.binding_selftest: see Trace_ResampleSelf.                                                        *)
+InitJudged ==
+  /\ i \in 1 .. Len(Recs)
+  /\ \E r \in {Recs[i]} :
+       IF r.kind = "resample"
+       THEN \E g \in {GridOf(r)} : \E ps \in {Positions(g)} : \E exps \in {ExpsOf(r)} : \E iv \in {IvRat(r)} :
+            \E v \in {VerdictResample(r, g, ps, exps, iv)} : ok = (v = "") /\ why = v
+       ELSE \E v \in {VerdictLaw(r)} : ok = (v = "") /\ why = v
+Stutter == UNCHANGED <<i, ok, why>>
 =============================================================================
